@@ -5,8 +5,10 @@ end) and the symbolic integers of the function; pointers into the input are curr
 cursor epoch.  Obligations
   B1  every read of n bytes at current()+k has avail >= k+n,
   B2  every bump*(n) has avail >= n,
-  (B3 of the design - adequacy of the *requested* amount - was dropped: deciding it needs value reasoning about which
-   reads influence the result; e.g. rep_one_min_max legitimately reads beyond size( Max + 1 ) when more is buffered),
+  B3  (narrow form) the result of size( a ) is never compared with a compile-time constant that makes a branch rely on
+      more than a bytes (a buffered input only guarantees what was asked for).  The general form - every read lies within
+      the requested amount - is not decidable without value reasoning: rep_one_min_max legitimately reads beyond
+      size( Max + 1 ) when more happens to be buffered,
   B4  no read through a negative offset / stale pointer (taken before the cursor moved)."""
 import collections
 from .exec import *
@@ -48,7 +50,7 @@ class BoundsMonitor(BaseMonitor):
         if isinstance(n, bool): n = int(n)
         if isinstance(n, int):
             st.zadd(new, old, -n); st.zadd(old, new, n)
-            st.req = [(x, c - n) for (x, c) in st.req if x or c - n > 0]
+            st.req = []
         elif isinstance(n, Sym):
             d = st.closure(); v = d.get((n.id, old))
             if v is not None: st.facts[new][0] = max(0, -v)
@@ -89,7 +91,11 @@ class BoundsMonitor(BaseMonitor):
                 def g(): yield Unknown('begin'), st
                 return g()
             if cn == 'size':
-                def g(): yield Sym(st.av), st
+                # the result is a fresh symbol equal to avail, remembered together with the amount that was requested (B3)
+                a = lin(ex.argval(av[0], st)) if av else None
+                r = st.sym(0, None); st.zadd(r.id, st.av, 0); st.zadd(st.av, r.id, 0)
+                st.req = [q for q in st.req if q[2] == st.epoch] + [(r.id, a, st.epoch, e.get('loc'))]
+                def g(): yield r, st
                 return g()
             if cn == 'empty':
                 def g():
@@ -128,6 +134,19 @@ class BoundsMonitor(BaseMonitor):
 
     def request(self, ex, st, av):
         pass
+
+    def on_compare(self, ex, st, e, op, l, r):
+        """B3 (narrow, value-free form): the result of in.size( a ) is compared with a compile-time constant c such that
+        one branch relies on more than a bytes: a buffered input only guarantees what was asked for"""
+        for x, other, node, o in ((l, r, e.get('r') or {}, op), (r, l, e.get('l') or {}, {'<': '>', '>': '<', '<=': '>=', '>=': '<='}.get(op, op))):
+            if not isinstance(x, Sym) or 'v' not in node: continue
+            if isinstance(other, bool): other = int(other)
+            if not isinstance(other, int): continue
+            for (sid, a, ep, loc) in st.req:
+                if sid != x.id or a is None: continue
+                need = other + 1 if o in ('>', '<=') else other      # x > c / !(x <= c) relies on c+1 bytes; x >= c, !(x < c), x == c on c
+                if a[0] == 0 and need > a[1]:
+                    st.viol.append(('B3', 'the result of size( %d ) is compared with %d: one branch relies on %d bytes although only %d were requested (a buffered input may legitimately answer less than a memory input)' % (a[1], other, need, a[1]), e.get('loc')))
 
     def avail_minus(self, ex, st, ptr):
         if ptr.epoch != st.epoch: return Unknown('stale')
